@@ -159,6 +159,8 @@ def member_sig(t, records, in_record=False):
             return 'ulong'
         if t2 == 'float':
             return 'float'
+    if in_record and tc == 'duration':
+        return 'time_point'        # a point in time kept as the duration since the clock's epoch (time_since_epoch())
     if in_record and tc not in ('umap_it', 'tree_it', 'list_it', 'vec_it', 'optional', 'time_point'):
         return 'ulong' if t2 in ('unsigned long', 'size_t', 'std::size_t') else 'value'
     return tc
